@@ -100,6 +100,11 @@ fn static_name(pm: &PassManager, name: &str) -> Option<&'static str> {
 }
 
 fn run_pipeline(cfg: &HookCfg, log: &Rc<RefCell<HookLog>>, ir: &mut Context, pm: &mut PassManager, default_group: &PassGroup, options: &sway_ir::pass_manager::Options) -> Result<(), IrError> {
+    // dependencies (library modules such as std) compiled on the way are not the subject: they
+    // go through the unchanged pipeline
+    if ir.module_iter().next().map(|m| matches!(m.get_kind(ir), sway_ir::Kind::Library)).unwrap_or(true) {
+        return pm.run(ir, default_group, options).map(|_| ());
+    }
     let default: Vec<&'static str> = default_group.verif_flatten();
     {
         let mut l = log.borrow_mut();
